@@ -110,9 +110,13 @@ def tcpc_dist(rs):
         if r["obs"] == "unreliable":
             d["skipped_unreliable"] += 1
             continue
-        d["bind6"] += parts[0][-1] == "1"
+        d["bind6"] += parts[0][-1] in ("1", "wx", "sx")
         ks = [p[0] for p in parts[1:] if p]
         d["with_hang_candidate"] += "hang" in ks
+        loc = {"0": "--", "1": "-x"}.get(parts[0][-1], parts[0][-1])
+        d.setdefault("local_addresses", {})
+        d["local_addresses"][loc] = d["local_addresses"].get(loc, 0) + 1
+        d["order_decides_outcome"] = d.get("order_decides_outcome", 0) + (parts[0][-3] == "1" and "hang" not in ks)
         for k in ks:
             d["candidates"][k] = d["candidates"].get(k, 0) + 1
         o = r["obs"].split()[0]
@@ -392,7 +396,7 @@ POOLT_STREAM = {"name": "poolt", "quick": 40, "thorough": 1500, "sep": ";", "bat
                 "exhaustive": "poolt-exhaustive", "exhaustive_always": True,
                 "nontrivial": pool_nontrivial, "distribution": pool_dist}
 POOL_RULE = ("random schedules (6-34 ops + drain/probe phase) of issue / poll / cancel / dial ok|ok+ALPN-h2|fail-connect|fail-handshake / "
-             "(ok-but-not-shareable also for an HTTP/2 request) / response arrives / connection-ready / connection-close / run-tasks / runtime-shutdown (every spawned task dropped, the pool lives on; 1 case in 40) / real-time tick over 1-3 origins (differing in scheme, port, "
+             "(ok-but-not-shareable also for an HTTP/2 request) / response arrives / connection-ready / connection-close / run-tasks / runtime-shutdown (every spawned task dropped, the pool lives on; 1 case in 40) / hold (another thread keeps the pool's mutex for 10 ms of real time while the next op runs: a dial completing for its request or in the background, a release, a cancellation; 1 case in 40 built around it, 1 in 15 of the others sprinkled with it) / real-time tick over 1-3 origins (differing in scheme, port, "
              "host, letter case), HTTP/1.1 and HTTP/2 mixed, max_idle in {0,1,2,3,32}, both continue_after_preemption settings, idle "
              "timeout none/0/sub-millisecond/50ms/long, through the public ConnectionPoolService over hyperdriver's own RequestExecutor with scripted "
              "Transport/Protocol/Connection (response arrival and readiness scripted independently; timed cases include released "
@@ -438,10 +442,34 @@ CONN_RULE = (" | conn: the leaf contract on hyperdriver's own HttpConnection (HT
              "satisfy is_open = (poll_ready is Ready(Ok)), can_share = false - the model's isOpenC with lax = false; one walk in five is over an HTTP/2 "
              "HttpConnection against a real hyper HTTP/2 server (send / poll / server goes away): can_share = true, and is_open until the peer is gone, not after")
 
-def pool_prop(mod, prefixes, theorems, timed=False, mt=False, leaf=False):
+def cfgp_dist(rs):
+    d = {"cases": len(rs), "skipped_unreliable": 0, "builder_sequence": {}, "max_idle": {}, "with_idle_timeout": 0, "burst_exceeds_limit": 0,
+         "follow_up_after_timeout": 0}
+    for r in rs:
+        t = r["input"].split()[-5:]
+        if r["obs"] == "unreliable":
+            d["skipped_unreliable"] += 1
+            continue
+        d["builder_sequence"][t[0]] = d["builder_sequence"].get(t[0], 0) + 1
+        d["max_idle"][t[1]] = d["max_idle"].get(t[1], 0) + 1
+        d["with_idle_timeout"] += t[2] != "-"
+        d["burst_exceeds_limit"] += int(t[3]) > int(t[1])
+        d["follow_up_after_timeout"] += t[2] != "-" and int(t[4]) > int(t[2])
+    return d
+
+CFGP_STREAM = {"name": "cfgp", "quick": 40, "thorough": 1500, "head": 6, "unit": 1, "batch": 500,
+               "nontrivial": lambda r: int(r["input"].split()[-2]) > int(r["input"].split()[-4]), "distribution": cfgp_dist}
+CFGP_RULE = (" | cfgp: the pool configuration on its way through Client::builder - with_pool on a fresh builder, after with_default_pool, "
+             "after without_pool, before the transport is chosen, given twice, on Builder::default(), or edited in place through pool() - "
+             "max_idle_per_host in {0,1,2,3,40}, idle_timeout none / 80 ms; a burst of 1-5 concurrent HTTP/1.1 requests to one origin over "
+             "in-memory connections to a real hyperdriver server that counts its connections and answers only when the whole burst has "
+             "arrived; observed: connections still open 20 ms after everything was released, and connections accepted in all after one more "
+             "request 5 / 200 ms later; the model runs the same history through the pool model with the configuration given")
+
+def pool_prop(mod, prefixes, theorems, timed=False, mt=False, leaf=False, cfgp=False):
     return {"props_module": mod, "class_prefix": prefixes, "theorems": theorems,
-            "streams": [POOL_STREAM] + ([POOLT_STREAM] if timed else []) + ([POOLMT_STREAM] if mt else []) + ([CONN_STREAM] if leaf else []),
-            "rule": POOL_RULE + (POOLMT_RULE if mt else "") + (CONN_RULE if leaf else ""), "assumes": POOL_ASSUMES}
+            "streams": [POOL_STREAM] + ([POOLT_STREAM] if timed else []) + ([POOLMT_STREAM] if mt else []) + ([CONN_STREAM] if leaf else []) + ([CFGP_STREAM] if cfgp else []),
+            "rule": POOL_RULE + (POOLMT_RULE if mt else "") + (CONN_RULE if leaf else "") + (CFGP_RULE if cfgp else ""), "assumes": POOL_ASSUMES}
 
 def srv_nontrivial(r):
     ops = [o.strip() for o in r["input"].split(";")[1:]]
@@ -534,14 +562,14 @@ PROPS = {
         "Hd.Pool.C04_one_attempt_per_origin", "Hd.Pool.C04_attempt_ids_distinct", "Hd.Pool.step_minv", "Hd.Pool.run_minv",
         "Hd.Pool.C04_released_connection_is_kept", "Hd.Pool.C04_cancel_returns_unused", "Hd.Pool.C04_only_polls_dial", "Hd.Pool.dropCheckout_dials"], leaf=True),
     "C05": pool_prop("HdModel.Props.C05", ["C05/"], ["Hd.Pool.C05_pop_spec", "Hd.Pool.C05_expired_head", "Hd.Pool.C05_no_timeout_never_expires",
-        "Hd.Pool.C05_pop_suffix", "Hd.Pool.C05_issue_fresh"], timed=True, leaf=True),
+        "Hd.Pool.C05_pop_suffix", "Hd.Pool.C05_issue_fresh"], timed=True, leaf=True, cfgp=True),
     "C06": pool_prop("HdModel.Props.C06", ["C06/"], ["Hd.Pool.C06_request_gets_own_origin", "Hd.Pool.C06_held_same_origin",
         "Hd.Pool.C06_idle_same_origin", "Hd.Pool.step_originInv", "Hd.Pool.run_originInv", "Hd.Pool.step_coSame",
         "Hd.Pool.C06_tokenOf", "Hd.Pool.C06_tokens_distinct", "Hd.Pool.C06_new_conn_origin", "Hd.Pool.keysOk_init"], mt=True),
     "C14": pool_prop("HdModel.Props.C14", ["C14/"], ["Hd.Pool.C14_preempt", "Hd.Pool.pushLoop_first_live", "Hd.Pool.C14_keeps_listening",
         "Hd.Pool.C14_continue", "Hd.Pool.C14_discard", "Hd.Pool.C14_listener_is_queued", "Hd.Pool.C14_release_serves_a_listener",
         "Hd.Pool.pushLoop_delivers", "Hd.Pool.step_queued", "Hd.Pool.run_queued"]),
-    "C15": pool_prop("HdModel.Props.C15", ["C15/"], ["Hd.Pool.C15_idle_bound", "Hd.Pool.step_idleBound", "Hd.Pool.push_idleBound"], timed=True, mt=True),
+    "C15": pool_prop("HdModel.Props.C15", ["C15/"], ["Hd.Pool.C15_idle_bound", "Hd.Pool.step_idleBound", "Hd.Pool.push_idleBound", "Hd.Pool.C15_per_origin", "Hd.Pool.compact_eq"], timed=True, mt=True, cfgp=True),
     "C18": {
         "props_module": "HdModel.Props.C18",
         "class_prefix": ["C18/", "C08/bytes-altered"],
@@ -572,8 +600,8 @@ PROPS = {
             {"name": "e2e", "quick": 1500, "thorough": 100000, "sep": ";", "batch": 2000,
              "nontrivial": e2e_nontrivial, "distribution": e2e_dist},
         ],
-        "rule": "scenarios of 2-10 concurrent requests through the real Client service (Client::builder, pool on/off, custom streaming "
-                "request body type) over in-memory duplex connections with buffer 8 B - 64 KiB (TLS: 64 B and up) - one scenario in twelve instead over real "
+        "rule": "scenarios of 2-10 concurrent requests through the real Client service (Client::builder, pool on/off, custom streaming request bodies and, one in four, hyperdriver's own Body as request and response body) "
+                "over in-memory duplex connections with buffer 8 B - 64 KiB (TLS: 64 B and up) - one scenario in twelve instead over real "
                 "TCP sockets on 127.0.0.1 through hyperdriver's own TcpTransport (getaddrinfo resolver, happy-eyeballs connect, TcpStream) behind a "
                 "wrapper that maps origins to the servers' ephemeral ports, in real time with all times divided by ten - to four real "
                 "hyperdriver Servers (auto HTTP/1+HTTP/2; 1 in 4 scenarios behind TLS with server ALPN h2+http/1.1, http/1.1 only or h2 "
@@ -671,12 +699,17 @@ PROPS = {
         "streams": [
             {"name": "wire", "quick": 5000, "thorough": 100000, "head": 10, "unit": 1, "batch": 5000,
              "nontrivial": wire_nontrivial, "distribution": wire_dist},
+            {"name": "e2e", "quick": 300, "thorough": 20000, "sep": ";", "batch": 2000,
+             "nontrivial": e2e_nontrivial, "distribution": e2e_dist},
         ],
         "rule": "requests from a grammar (11 methods incl. CONNECT and an extension method, schemes http/https/ws/wss/foo/none, hosts "
                 "names/IPv4/bracketed IPv6/none, ports absent/80/443/8080/8443/random, 9 paths incl. empty, 5 queries, all five "
                 "version constants, 0-4 pre-set headers incl. Host and the five connection headers) through the public layers in "
                 "builder order around a real HttpConnection over a duplex whose raw peer records the HTTP/1 request head on the wire, "
-                "or a stub HTTP/2 connection; plus request version x ALPN through HttpConnectionBuilder. non-trivial = absolute URI",
+                "or a stub HTTP/2 connection; plus request version x ALPN through HttpConnectionBuilder. non-trivial = absolute URI | e2e: the C01 "
+                "scenarios through the client as Client::builder assembles it (its own layer order, the pool handing HTTP/1 connections to "
+                "requests of any version) to real servers whose handler compares the Host header and the request target it receives with "
+                "what the request's URI says",
         "assumes": ["http crate: Uri/HeaderMap parsing and printing; header order between different names is not significant",
                     "hyper's HTTP/1 encoder writes the request target and headers it is given (observed on the wire); "
                     "hyper's HTTP/2 client is replaced by a stub so that hyperdriver's own header stripping is what is observed"],
@@ -751,14 +784,20 @@ PROPS = {
     },
     "C16": {
         "props_module": "HdModel.Props.C16",
+        "class_prefix": ["C16/"],
         "theorems": ["Hd.Dns.C16_eq_spec", "Hd.Dns.C16_perm", "Hd.Dns.C16_both", "Hd.Dns.C16_no_preferred",
                      "Hd.Dns.C16_no_other", "Hd.Dns.C16_port", "Hd.Dns.C16_preference", "Hd.Dns.C16_connecting"],
         "streams": [
             {"name": "dns", "quick": 6000, "thorough": 300000, "head": 5, "unit": 3,
              "nontrivial": dns_nontrivial, "distribution": dns_dist},
+            TCPC_STREAM,
         ],
         "rule": "random address lists (len 0..12, both families, duplicate ids) x preference x port through the verif hook "
-                "and through TcpTransport::connecting; non-trivial = both families present; distinct by input line",
+                "and through TcpTransport::connecting with local addresses none / loopback / wildcard / another host address per "
+                "family; non-trivial = both families present; distinct by input line | tcpc: the public connect_to_addrs on "
+                "loopback listeners of both families with local addresses none / loopback / wildcard / unassignable - a third of "
+                "the cases run one attempt at a time against candidates that all answer at once, so that the winner (or the "
+                "reported error) is decided by the order of the attempts alone",
         "assumes": ["std VecDeque::remove/push_front/pop_front semantics (modelled as list erase/cons)",
                     "order of connection attempts = order popped from SocketAddrs (TcpConnecting::connect loop) - see C11"],
     },
